@@ -362,7 +362,15 @@ func (p *Pop) Step(r *rand.Rand) string {
 				continue
 			}
 			d := exist[r.Intn(len(exist))]
-			must(os.RemoveAll(p.Phys[d]))
+			how := "rmdir"
+			if chance(r, 40) {
+				// the directory leaves by being renamed away, content and all
+				how = "rename-dir-away"
+				p.nmarker++
+				must(os.Rename(p.Phys[d], filepath.Join(p.Root, fmt.Sprintf("gone-%d", p.nmarker))))
+			} else {
+				must(os.RemoveAll(p.Phys[d]))
+			}
 			p.Exists[d] = false
 			var keep []*PFile
 			for _, f := range p.Files {
@@ -371,7 +379,7 @@ func (p *Pop) Step(r *rand.Rand) string {
 				}
 			}
 			p.Files = keep
-			return fmt.Sprintf("rmdir %s", p.Phys[d])
+			return fmt.Sprintf("%s %s", how, p.Phys[d])
 		case 7: // create a missing directory with a file
 			var missing []int
 			for i := range p.Phys {
